@@ -76,5 +76,8 @@ def run(ctx):
     from props import relcorr, hashdigest
     res = relcorr.memo_oracle(ctx, res, 'C03')
     res = hashdigest.add(ctx, res, 'C03')
+    from props import multifield, selfjoin
+    res = multifield.add(ctx, res, 'C03')
+    res = selfjoin.add(ctx, res, 'C03')
     from props import colmodel
     return colmodel.add(ctx, res, 'C03', n_quick=80, n_thorough=800)
